@@ -272,7 +272,14 @@ func (c *Checker) Record(info CaseInfo, kind string, v *Violation) {
 	c.newViol++
 	if c.triage != nil {
 		var kt []string
+		drop := strings.Split(os.Getenv("VERIF_TRIAGE_DROP"), ",")
+	tagLoop:
 		for _, t := range info.Tags {
+			for _, d := range drop {
+				if d != "" && strings.HasPrefix(t, d) {
+					continue tagLoop
+				}
+			}
 			if os.Getenv("VERIF_TRIAGE") == "full" || !(strings.HasPrefix(t, "dtype=") || strings.HasPrefix(t, "rank") || strings.HasPrefix(t, "route=") || strings.HasPrefix(t, "to=") || strings.HasPrefix(t, "vtype=") || strings.HasPrefix(t, "enc=")) {
 				kt = append(kt, t)
 			}
